@@ -29,6 +29,7 @@ class Lab:
         self.max_seen = 0        # most simultaneously established acceptor associations seen at any notification
         ae = self.ae = AE("ACCEPTOR")
         ae.maximum_associations = maximum
+        ae.require_called_aet = True          # requests of the scenario's "bad" threads name another called AE title
         ae.acse_timeout, ae.dimse_timeout, ae.network_timeout = 10, 10, 30
         ae.add_supported_context(V)
         self.handlers = [(evt.EVT_REQUESTED, self._requested), (evt.EVT_ASYNC_OPS, self._async), (evt.EVT_ACSE_SENT, self._acse_sent),
@@ -104,7 +105,7 @@ def wait(cond, timeout=5.0):
     return bool(cond())
 
 
-def replay(hist, maximum):
+def replay(hist, maximum, bad=()):
     """Step the real negotiation threads along `hist` (list of (action, thread)); returns the per-step observations."""
     lab = Lab(maximum)
     peers, steps, ok = {}, [], True
@@ -120,7 +121,7 @@ def replay(hist, maximum):
                     lab.start(x)
                 lab.g2[t] = (threading.Event(), threading.Event())
                 lab.g3[t] = (threading.Event(), threading.Event())
-                peers[t] = RawPeer(lab.ports[x], [(V, ["1.2.840.10008.1.2"])], calling=f"T{t}", async_ops=(2, 2))
+                peers[t] = RawPeer(lab.ports[x], [(V, ["1.2.840.10008.1.2"])], calling=f"T{t}", called="ACCEPTOR" if t not in bad else "SOMEONEELSE", async_ops=(2, 2))
                 peers[t].send_rq()
                 ok = wait(lambda: lab.g2[t][0].is_set())
             elif act == "check":
@@ -147,7 +148,7 @@ def replay(hist, maximum):
                     ok = wait(lambda: not lab.assoc[t].is_alive())
             est = lab.established_now()
             alive = len([a for a in threading.enumerate() if type(a).__name__ == "Association" and a.is_acceptor and a.ae is lab.ae])
-            steps.append({"act": act, "t": t, "ok": bool(ok), "est": est, "alive": alive, "note": note,
+            steps.append({"act": act, "t": t, "ok": bool(ok), "est": est, "alive": alive, "note": note, "bad": t in bad,
                           "decision": list(lab.decision.get(t, ())), "rj": list(getattr(peers.get(t), "rj", ()) or ())})
             if not ok:
                 break
